@@ -61,8 +61,9 @@ def gen_plan(seed: int, tier: str, focus: str = "c10") -> dict:
     }
     horizon = r.choice([30.0, 30.0, 120.0, 600.0, 3000.0, 7200.0])
     ops = [{"op": "get", "ids": [[1, 10]], "t": 0.0}] if r.random() < 0.8 else [{"op": "desc_update", "addrs": addrs, "t": 0.0}]
+    if r.random() < 0.5:
+        ops.append({"op": "subscribe", "ids": [[1, 10], [1, 11], [2, 12]], "t": round(r.choice([0.0, 0.001, 0.5]), 3)})
     nops = r.randint(2, 16)
-    closed = False
     for _ in range(nops):
         t = rnd_time(r, horizon)
         x = r.random()
